@@ -12,7 +12,10 @@ SYS_RULE = ("sys traces: a real server App and 1..3 real client Apps (MinimalPlu
             "explicit actions. Generated histories interleave world operations (spawn, despawn, insert, in-place mutation, removal, marker toggle, "
             "visibility, relations, pre-spawn mappings, max message size), server frames with or without a tick, client frames, per-message "
             "deliveries under six link moods (perfect, reliable channel held back, lossy, reordering, ack starvation, random), disconnects, "
-            "server restarts, and end with a quiescent flush. After every server frame the real message bytes are decoded with the model's "
+            "server restarts, ticks advanced by more than one at once (ServerTick::increment_by under the manual policy: 2..200, across the 64-tick window and the varint boundary at 128), "
+            "acknowledgement messages nobody owes (indices of no message in flight, from any connected client, authorized or not), and end with a quiescent flush. One case in twelve of profile sys runs a server whose tick starts "
+            "1..30 below u32::MAX and wraps around during the case (header tickbase=; every client has its first update message before anything may overtake it, nobody reconnects): there the lock step "
+            "with the models, whose ticks are unbounded naturals, is off and the structure, value, visibility and convergence oracles on the implementation decide. After every server frame the real message bytes are decoded with the model's "
             "decoders (Model/Wire.lean) and after every client frame the client's real state (entity map, components, ConfirmHistory, "
             "ServerUpdateTick) is compared with the server snapshot history. distinct_nontrivial = distinct cases with at least one sending "
             "server frame and one client frame that holds entities. ")
@@ -43,6 +46,7 @@ PROPS = {
             "Replicon.C01.C01_joiner_values",
             "Replicon.C01.C01_history_same_entities",
             "Replicon.C01.C01_history_same_entities_any_schedule",
+            "Replicon.C01.C01_history_same_entities_with_tick_jumps",
             "Replicon.C01.C01_history_same_components",
             "Replicon.C01.C01_known_finding_F4_witness",
             "Replicon.C01.C01_known_finding_F4_server_value",
@@ -74,7 +78,7 @@ PROPS = {
     },
     "C03": {
         "modules": ["Replicon.Props.C03", "Replicon.Proofs.Sync", "Replicon.Proofs.ClientSync", "Replicon.Proofs.Session",
-                    "Replicon.Proofs.Kinds", "Replicon.Proofs.KindsSession", "Replicon.Proofs.ClientKinds", "Replicon.Proofs.TwoWay"],
+                    "Replicon.Proofs.Kinds", "Replicon.Proofs.KindsSession", "Replicon.Proofs.ClientKinds", "Replicon.Proofs.TwoWay", "Replicon.Proofs.Jump"],
         "theorems": [
             "Replicon.C03.C03_tick_monotone",
             "Replicon.C03.C03_tick_is_message_tick",
@@ -90,6 +94,7 @@ PROPS = {
             "Replicon.C03.C03_history_session",
             "Replicon.C03.C03_history_components",
             "Replicon.C03.C03_history_structure",
+            "Replicon.C03.C03_history_with_tick_jumps",
         ],
         "profiles": [{"name": "sys", "shards": {"thorough": 8}}, {"name": "sys_vis", "shards": {"thorough": 8}}],
         "rule": SYS_RULE + LOCK + "For C03: oracle on the implementation after every client frame: the client's mapped entities (a consistent two-way map), their replicated component sets and markers equal the server snapshot at the client's ServerUpdateTick restricted to what is visible to it (placeholders created only by references / pre-spawn mappings excepted).",
@@ -107,6 +112,7 @@ PROPS = {
             "Replicon.C04.C04_gate",
             "Replicon.C04.C04_applied_before_delivery",
             "Replicon.C04.C04_history",
+            "Replicon.C04.C04_history_with_tick_jumps",
             "Replicon.C04.C04_ticks_compose",
             "Replicon.C04.C04_refs_resolve",
             "Replicon.C04.C04_refs_refused",
@@ -165,7 +171,7 @@ PROPS = {
             "Replicon.C13.C13_history_local_after_frame",
         ],
         "profiles": [{"name": "sys_evt", "shards": {"thorough": 8}}],
-        "rule": SYS_RULE + LOCK + EVT_RULE + "For C13: oracles on the implementation: a server event is observed by the local game iff the local server is among its recipients (exactly once after the flush; a dedicated server is only required not to observe twice); an event the local game sends towards the server is observed by server-side logic with the SERVER identity when the app is not connected; a client app observes its own client event locally only if it never went on the wire (otherwise: known finding F13); nothing is observed twice.",
+        "rule": SYS_RULE + LOCK + EVT_RULE + "For C13: oracles on the implementation: a server event is observed by the local game iff the local server is among its recipients (exactly once after the flush; a dedicated server is only required not to observe twice); an event the local game sends towards the server is observed by server-side logic with the SERVER identity when the app is not connected; a client app observes its own client event locally only if it never went on the wire (otherwise: known finding F13 when the event is at most 8 client frames old at the end of the session, i.e. can still be in Bevy's event double buffer; a new violation when it is older: generated histories send events 10..14 client frames before a disconnect); nothing is observed twice.",
         "trusted_extra": [
             "modelled, not verified: Bevy ECS (change detection as one logical clock, iteration orders as multisets, required components, observers), Bevy's Events<E> double buffer and its ageing schedule (a nondeterministic input of the model), "
             "postcard encodings of the harness's event types, the transport (ordered reliable channels deliver once and in order: the harness is the network); RepliconTick wrap-around inside the client event queue is not modelled",
@@ -197,11 +203,13 @@ PROPS = {
             "Replicon.C07.C07_authorize_fresh",
             "Replicon.C07.C07_protocol_check",
             "Replicon.C07.C07_history",
+            "Replicon.C07.C07_history_with_tick_jumps",
             "Replicon.C07.C07_history_complete_state",
+            "Replicon.C07.C07_history_complete_state_with_tick_jumps",
             "Replicon.C07.C07_history_complete_state_values",
         ],
         "profiles": [{"name": "sys_auth", "shards": {"thorough": 8}}],
-        "rule": SYS_RULE + LOCK + 'For C07 (profile sys_auth: AuthMethod::ProtocolCheck / Custom / None, clients that authorize late or never): oracle: no update or mutate message is ever addressed to a client without AuthorizedClient; after authorization the convergence oracle applies.',
+        "rule": SYS_RULE + LOCK + 'For C07 (profile sys_auth: AuthMethod::ProtocolCheck / Custom / None, clients that authorize late or never; the protocol has a server event and three server triggers of which only the first is registered as independent, all three are broadcast at arbitrary points): oracle: no update or mutate message, and nothing on the channels of the two triggers that are not independent, is ever addressed to a client without AuthorizedClient; after authorization the convergence oracle applies.',
         "trusted_extra": [
             "modelled, not verified: Bevy ECS (change detection as one logical clock, iteration orders as multisets, required components, observers), "
             "postcard encodings of the harness's component types; the models are compared with the real apps on every message and every client frame",
@@ -237,7 +245,8 @@ PROPS = {
             "Replicon.C11.C11_ack_once",
             "Replicon.C11.C11_idle_silent",
         ],
-        "profiles": [{"name": "sys", "shards": {"thorough": 8}}, {"name": "sys_split", "shards": {"thorough": 4}}],
+        "profiles": [{"name": "sys", "shards": {"thorough": 8}}, {"name": "sys_split", "shards": {"thorough": 4}},
+                     {"name": "sys_auth", "shards": {"thorough": 4}}],
         "rule": SYS_RULE + LOCK + "For C11: oracle: in the late rounds of the quiescent suffix (everything delivered and acknowledged, nothing changing) the server sends no replication message at all (unless tracking is on); acknowledgement delay / starvation / loss of mutate messages and junk acknowledgement indices are part of the generated schedules, and the model's belief (mutTick, in-flight table, ack cleanup timer) is compared through every subsequent message.",
         "trusted_extra": [
             "modelled, not verified: Bevy ECS (change detection as one logical clock, iteration orders as multisets, required components, observers), "
@@ -275,7 +284,7 @@ PROPS = {
         "const_obligations": ["shape of can_pack and of the split condition in Mutations::send (anchored source patterns)"],
         "profiles": [{"name": "sys_split", "shards": {"thorough": 8}}, {"name": "sys", "shards": {"thorough": 4}}],
         "rule": SYS_RULE + "For C10 (profile sys_split: blob components of 0..400 bytes, max_size in {1,40,120,200,1200} changed mid-run, relation "
-                "graphs through ChildOf with sync_related_entities): (1) model vs implementation: the chunk sequence and header size are read off "
+                "graphs through ChildOf with sync_related_entities, relation churn: random sequences of relating / re-parenting / unrelating 4..6 entities so that edge indices of the relation graph are recycled, then every member mutates in one tick against max size 1): (1) model vs implementation: the chunk sequence and header size are read off "
                 "the decoded real mutate messages of a tick and Packing.split must reproduce the real partition into messages exactly; "
                 "(2) oracle: no entity in two messages of a tick, related entities in one message, no message above max_size when every "
                 "chunk fits, one message when everything fits.",
@@ -294,6 +303,7 @@ PROPS = {
             "Replicon.C08.C08_run_decision",
             "Replicon.C08.C08_despawn",
             "Replicon.C08.C08_history_gain_lose",
+            "Replicon.C08.C08_history_gain_lose_with_tick_jumps",
             "Replicon.C08.C08_history_gained_entity_values",
             "Replicon.C08.C08_known_finding_F14_witness",
             "Replicon.Vis.step_preserves",
@@ -323,7 +333,7 @@ PROPS = {
         "const_obligations": ["Consts.fnvOffset / fnvPrime (fnv crate locked in Cargo.lock)", "ProtocolPart variant order and repr(u8)", "ProtocolHasher::hash feeds part then type name"],
         "profiles": [{"name": "c14"}],
         "rule": "c14pair: real Apps (MinimalPlugins + RepliconPlugins) built from a generated registration sequence a (0..8 registrations over "
-                "22 menu items: single rules, once, bundles in both orders, custom priorities 0/2/257/2^40, tuple rules, client/server events and "
+                "28 menu items (one type both as a server event and a server trigger, one type as a client event in one build and a client trigger in the other): single rules, once, bundles in both orders, custom priorities 0/2/257/2^40, tuple rules, client/server events and "
                 "triggers, independence marks) and from a single-step edit b of it (swap, insert, delete, change in place); their real "
                 "ProtocolHash values and a second build of a are compared with the Lean model hash (type names passed as data) and with the "
                 "oracle: equal registration sequences <=> equal hashes. c14hs: a server built from a and a client built from b connect under "
@@ -406,8 +416,9 @@ PROPS = {
         "profiles": [{"name": "c12"}, {"name": "sys_track", "shards": {"thorough": 8}}],
         "rule": "End to end (profile sys_track = the sys_split set-up with track_mutate_messages always on: ticks split into 1..k mutate messages by small max sizes, "
                 "parts of a split tick lost, mutate messages overtaking the update message they depend on): after every client frame the MutateTickReceived events of the frame are "
-                "compared with the client model's tracker (lock step) and checked by an oracle on the implementation: a tick is reported once per session, and only when every mutate message "
-                "the server sent that client for that tick has been applied (= acknowledged). "
+                "compared with the client model's tracker (lock step) and checked by an oracle on the implementation: a tick is reported once per session, only when every mutate message "
+                "the server sent that client for that tick has been applied (= acknowledged), and it is reported as soon as that is the case while the tick is inside the 64-tick window; "
+                "histories with tracking also have reconnects, server restarts (tick back to 0) and ticks advanced by up to 200 at once. "
                 "c12cmp: real RepliconTick::cmp on boundary and random pairs of absolute ticks (residues mod 2^32 go to the code); "
                 "c12ch / c12smt: generated sequences of confirm / contains / contains_any calls on a real ConfirmHistory / "
                 "ServerMutateTicks over absolute ticks (distances 0..3, 31..33, 62..66, 127..129, 2^31-1.., bases around 0, 2^31, 2^32 and "
@@ -452,7 +463,7 @@ PROPS = {
 
 MANIFEST_TEXT = {
     "C01": {
-        "text": "Per-run halves of the convergence argument are Lean theorems about the protocol models: progress (an entity the client lacks is sent whole; a value newer than the server's belief is sent whenever its rate fires; a visible despawned entity is in DESPAWNS) and stability (nothing pending and nothing to say => the run sends nothing and changes nothing; a client frame without messages changes nothing). Across both models: a client that joins a quiescent server holds, after one perfect round, every replicated entity with exactly the server's replicated components and values and nothing else (C01_joiner_converges, C01_joiner_values: the server model's message applied by the client model, for every server world; blacklist, no entity-valued components). Over ALL histories of the joint model and across both models the client model fed a session's update messages in order holds exactly the marked entities visible to it (C01_history_same_entities), also with arbitrary mutate messages — lost, duplicated, reordered, stale — arriving anywhere in between (C01_history_same_entities_any_schedule), and fed the update messages in order it has on every entity exactly the replicated component kinds the server entity carries (C01_history_same_components). For values, the induction joining progress and stability over arbitrary histories with an already known client (C01_converges_partial) is NOT proved; convergence and absence of panics are checked on the implementation at the end of every generated trace, with both models in lock step (0 disagreements required).",
+        "text": "Per-run halves of the convergence argument are Lean theorems about the protocol models: progress (an entity the client lacks is sent whole; a value newer than the server's belief is sent whenever its rate fires; a visible despawned entity is in DESPAWNS) and stability (nothing pending and nothing to say => the run sends nothing and changes nothing; a client frame without messages changes nothing). Across both models: a client that joins a quiescent server holds, after one perfect round, every replicated entity with exactly the server's replicated components and values and nothing else (C01_joiner_converges, C01_joiner_values: the server model's message applied by the client model, for every server world; blacklist, no entity-valued components). Over ALL histories of the joint model and across both models the client model fed a session's update messages in order holds exactly the marked entities visible to it (C01_history_same_entities), also with arbitrary mutate messages — lost, duplicated, reordered, stale — arriving anywhere in between (C01_history_same_entities_any_schedule; C01_history_same_entities_with_tick_jumps: the same for histories in which the manual tick policy advances the tick by any amounts at once), and fed the update messages in order it has on every entity exactly the replicated component kinds the server entity carries (C01_history_same_components). For values, the induction joining progress and stability over arbitrary histories with an already known client (C01_converges_partial) is NOT proved; convergence and absence of panics are checked on the implementation at the end of every generated trace, with both models in lock step (0 disagreements required).",
         "design_ref": "DESIGN.md §7 C01",
         "note": 'partial: the end-to-end convergence theorem is replaced by per-run theorems + oracle on the implementation + exact model correspondence. Known findings F4 (periodic) and F20 (tick-0 race) are reported, tagged by the trace checker.',
         "technique": "Lean 4 proof (per-run theorems about executable server/client protocol models) + lock-step model/implementation correspondence on real traces + property oracle on the implementation",
@@ -464,7 +475,7 @@ MANIFEST_TEXT = {
         "technique": "Lean 4 proof (per-run theorems about executable server/client protocol models) + lock-step model/implementation correspondence on real traces + property oracle on the implementation",
     },
     "C03": {
-        "text": "Lean theorems about the protocol models: ServerUpdateTick is the tick of the last applied update message and never decreases for in-order messages; a hidden entity contributes nothing; an entity new to the client is sent whole in one record; a visible entity that left replication is in DESPAWNS; an entity with an insertion/removal gets its pending mutations in the same record; the target of a CHANGES record is marked. Server order over ALL histories of the joint server model (C03_history_server_order): an update message sent to a client carries a tick larger than every update message sent to it before in its session. Which entities a client holds, over ALL histories and across both models (Proofs/Sync.lean, ClientSync.lean, Session.lean): after every replication run the server tracks for every authorized client exactly the marked entities visible to it (C03_history_entities); the run's DESPAWNS/CHANGES are exactly the difference of the tracked sets (C03_history_message_is_difference); the client model applying that message holds the tracked set again (C03_history_frame_both_sides); and the client model fed a whole session's update messages in order holds exactly the server's view, no section of any message failing (C03_history_session; hypotheses on histories: entity ids not reused, a stopped server sees a frame before a restart, no pre-spawn mappings). Which components, over ALL histories: replaying the DESPAWNS/REMOVALS/CHANGES records of a session for one entity gives exactly the replicated component kinds the server entity carries (C03_history_components; invariant about Bevy's added ticks, the two-frame retention of removal events and the removal buffer), and that is what the client model has on its entity; the replayed client's entity map is a consistent two-way map (TwoWay); C03_history_structure puts entities, marker, components and the two-way map together. What is left of 'structure = view at update tick' (C03_structure_partial: pre-spawn mappings, interleaving with mutate messages at the component level) is checked as an oracle on the implementation after every client frame, with both models in lock step.",
+        "text": "Lean theorems about the protocol models: ServerUpdateTick is the tick of the last applied update message and never decreases for in-order messages; a hidden entity contributes nothing; an entity new to the client is sent whole in one record; a visible entity that left replication is in DESPAWNS; an entity with an insertion/removal gets its pending mutations in the same record; the target of a CHANGES record is marked. Server order over ALL histories of the joint server model (C03_history_server_order): an update message sent to a client carries a tick larger than every update message sent to it before in its session. Which entities a client holds, over ALL histories and across both models (Proofs/Sync.lean, ClientSync.lean, Session.lean): after every replication run the server tracks for every authorized client exactly the marked entities visible to it (C03_history_entities); the run's DESPAWNS/CHANGES are exactly the difference of the tracked sets (C03_history_message_is_difference); the client model applying that message holds the tracked set again (C03_history_frame_both_sides); and the client model fed a whole session's update messages in order holds exactly the server's view, no section of any message failing (C03_history_session; hypotheses on histories: entity ids not reused, a stopped server sees a frame before a restart, no pre-spawn mappings). Which components, over ALL histories: replaying the DESPAWNS/REMOVALS/CHANGES records of a session for one entity gives exactly the replicated component kinds the server entity carries (C03_history_components; invariant about Bevy's added ticks, the two-frame retention of removal events and the removal buffer), and that is what the client model has on its entity; the replayed client's entity map is a consistent two-way map (TwoWay); C03_history_structure puts entities, marker, components and the two-way map together. The entity and component statements also hold for histories in which the manual tick policy advances the tick by any amounts at once (C03_history_with_tick_jumps, Proofs/Jump.lean: no invariant behind the structure theorems reads the value of the tick). What is left of 'structure = view at update tick' (C03_structure_partial: pre-spawn mappings, interleaving with mutate messages at the component level) is checked as an oracle on the implementation after every client frame, with both models in lock step.",
         "design_ref": "DESIGN.md §7 C03",
         "note": 'partial: update_is_diff for every reachable server state is not proved as one theorem; per-section theorems + exact correspondence + oracle.',
         "technique": "Lean 4 proof (per-run theorems about executable server/client protocol models) + lock-step model/implementation correspondence on real traces + property oracle on the implementation",
